@@ -124,8 +124,8 @@ func Convert_ServerCommonConf_To_v1(conf *ServerCommonConf) *v1.ServerConfig {
 		out.WebServer.TLS = &v1.TLSConfig{}
 		out.WebServer.TLS.CertFile = conf.DashboardTLSCertFile
 		out.WebServer.TLS.KeyFile = conf.DashboardTLSKeyFile
-		out.WebServer.PprofEnable = conf.PprofEnable
 	}
+	out.WebServer.PprofEnable = conf.PprofEnable
 
 	out.EnablePrometheus = conf.EnablePrometheus
 
